@@ -1359,12 +1359,19 @@ impl ValueWriter<'_, '_> {
                     Self::write_observation(buf, counts, first, multiplicity, name).is_ok();
                 wrote_anything |= wrote;
                 for observation in second.into_iter().chain(distribution) {
-                    if wrote {
+                    let buf_index = buf.as_str().len();
+                    let counts_index = counts.as_str().len();
+                    if wrote_anything {
                         buf.push(',');
                         counts.push(',');
                     }
                     wrote = Self::write_observation(buf, counts, observation, multiplicity, name)
                         .is_ok();
+                    if !wrote {
+                        // a skipped (NaN) observation must not leave its separator behind
+                        buf.truncate(buf_index);
+                        counts.truncate(counts_index);
+                    }
                     wrote_anything |= wrote;
                 }
                 // injection-safe because this is a comma-separated list of numbers
